@@ -22,6 +22,13 @@ def transform(case):
         n = np.asarray(case["reflect"], dtype=float)
         n = n / np.linalg.norm(n)
         R = R @ (np.eye(3) - 2 * np.outer(n, n))
+    if case.get("exact"):
+        # rotations by exact multiples of 90 degrees about a coordinate axis, reflections through coordinate
+        # planes: exact matrices (entries -1, 0, 1), so that coordinates that should be 0 ARE 0
+        Rr = np.round(R)
+        if np.abs(R - Rr).max() > 1e-9:
+            raise ValueError("exact=True needs a signed permutation matrix")
+        R = Rr + 0.0
     t = np.asarray(case.get("translate", [0, 0, 0]), dtype=float)
     if case.get("center") and case.get("angle"):
         # the rotation (not the reflection) is about an axis through `center`
@@ -93,24 +100,43 @@ def rel(a, b):
 
 
 # ------------------------------------------------------------------------------ continuum
-def build_material(case, R):
+def field_of(value, form, mesh):
+    """the same value as a homogeneous value, a per-element field or a per-Gauss-point field"""
+    from EasyFEA import MatrixType
+    if form in (None, "homogeneous"):
+        return value
+    Ne = mesh.Ne
+    v = np.asarray(value, dtype=float)
+    if form == "per-element":
+        return np.broadcast_to(v, (Ne,) + v.shape).copy()
+    nPg = mesh.groupElem.Get_gauss(MatrixType.rigi).nPg
+    return np.broadcast_to(v, (Ne, nPg) + v.shape).copy()
+
+
+def build_material(case, R, mesh=None):
     from EasyFEA import Models
     dim = case["dim"]
+    form = case.get("form")
     law = case["law"]
     a = np.asarray(case.get("axes", [[1, 0, 0], [0, 1, 0]])[0], dtype=float)
     b = np.asarray(case.get("axes", [[1, 0, 0], [0, 1, 0]])[1], dtype=float)
     a, b = R @ a, R @ b
     ps = case.get("ps", True)
     if law == "iso":
-        return Models.Elastic.Isotropic(dim, E=case["E"], v=case["v"], planeStress=ps)
+        return Models.Elastic.Isotropic(dim, E=field_of(case["E"], form, mesh), v=case["v"], planeStress=ps)
     if law == "ti":
-        return Models.Elastic.TransverselyIsotropic(dim, El=case["El"], Et=case["Et"], Gl=case["Gl"], vl=case["vl"], vt=case["vt"],
+        return Models.Elastic.TransverselyIsotropic(dim, El=field_of(case["El"], form, mesh), Et=field_of(case["Et"], form, mesh), Gl=case["Gl"], vl=case["vl"], vt=case["vt"],
                                                     axis_l=a, axis_t=b, planeStress=ps)
     if law == "ortho":
         p = case["p"]
         return Models.Elastic.Orthotropic(dim, *p, axis_1=a, axis_2=b, planeStress=ps)
     if law == "aniso":
-        return Models.Elastic.Anisotropic(dim, np.asarray(case["C"], dtype=float), False, a, b)
+        C = np.asarray(case["C"], dtype=float)
+        voigt = bool(case.get("voigt", False))
+        if voigt:        # case["C"] is Kelvin-Mandel: hand the same material over in Voigt notation
+            d = np.array([1, 1, np.sqrt(2)]) if C.shape[0] == 3 else np.array([1, 1, 1, np.sqrt(2), np.sqrt(2), np.sqrt(2)])
+            C = C / np.outer(d, d)
+        return Models.Elastic.Anisotropic(dim, field_of(C, form, mesh), voigt, a, b)
     raise ValueError(law)
 
 
@@ -155,7 +181,7 @@ def solve_continuum(case, moved):
             simu.add_neumann(right, [case.get("q", 1.7)], ["t"])
         sol = simu.Solve()
         return np.asarray(sol, dtype=float).copy(), R, None, motion
-    mat = build_material(case, R)
+    mat = build_material(case, R, mesh)
     simu = Simulations.Elastic(mesh, mat, verbosity=False)
     u0 = np.asarray(case.get("u0", [0.0, 0.0, 0.0]), dtype=float)
     F = np.asarray(case["F"], dtype=float)
@@ -269,6 +295,9 @@ def solve_beam(case, moved):
     simu.Solve()
     names = ["ux", "uy", "rz"] if dim == 2 else ["ux", "uy", "uz", "rx", "ry", "rz"]
     res = {r: np.asarray(simu.Result(r, nodeValues=True), dtype=float).reshape(-1) for r in names}
+    # internal axial force per element (a scalar in the member's own axes) and the element centroids
+    res["N_e"] = np.asarray(simu.Result("N", nodeValues=False), dtype=float).reshape(-1)
+    res["cent_e"] = np.asarray(mesh.coord, dtype=float)[mesh.connect].mean(1)
     return res, R, t, np.array(mesh.coord, dtype=float)
 
 
@@ -305,7 +334,12 @@ def run_beam(case):
     eu = float(np.abs(bu - u1).max() / np.abs(u1).max())
     ew = float(np.abs(bw - w1).max() / np.abs(w1).max())
     i = int(np.argmax(np.abs(w1).max(axis=1)))
-    return {"err": max(eu, ew), "err_u": eu, "err_rot": ew, "what": "nodal displacements and rotations (pseudo-vector) of the moved structure transformed back",
+    # axial force: unchanged, element by element
+    ce = r1["cent_e"] @ R.T + t
+    eidx = np.array([int(np.argmin(np.linalg.norm(r2["cent_e"] - x, axis=1))) for x in ce])
+    eN = float(np.abs(r2["N_e"][eidx] - r1["N_e"]).max() / max(np.abs(r1["N_e"]).max(), 1e-300))
+    return {"err": max(eu, ew, eN), "err_u": eu, "err_rot": ew, "err_N": eN, "N_original": r1["N_e"][:3].tolist(), "N_moved": r2["N_e"][eidx][:3].tolist(),
+            "what": "nodal displacements, rotations (pseudo-vector) and element axial forces N of the moved structure vs the original",
             "sample": {"node": i, "u_original": u1[i].tolist(), "u_moved_back": bu[i].tolist(), "rot_original": w1[i].tolist(), "rot_moved_back": bw[i].tolist(),
                        "rot_moved_raw": w2[i].tolist(), "det_R": det}}
 
